@@ -233,7 +233,7 @@ def mutations(chain, vocab=()):
 
 
 def run_shard(spec, acc):
-    warnings.simplefilter("ignore")
+    (None if os.environ.get("PTA_WARNINGS_ARE_ERRORS") else warnings.simplefilter("ignore"))
     k = spec["kind"]
     if k == "rule_seq":
         dfs_rule([RULE_VOCAB[spec["first"]]], spec["len"], acc)
@@ -725,7 +725,7 @@ def layer_misspelt(rnd, evl, good, bad, acc):
 
 
 def replay(case, acc):
-    warnings.simplefilter("ignore")
+    (None if os.environ.get("PTA_WARNINGS_ARE_ERRORS") else warnings.simplefilter("ignore"))
     k = case["kind"]
     seq = [tuple(s) for s in case.get("seq", [])]
     if k == "rule_seq":
